@@ -940,4 +940,98 @@ theorem steps_cover_calls :
       callsExtractJWK ++ (callsNewAccount.flatMap fun c => if c = "validateExternalAccountBinding" then callsValidateEAB else [c]) := by
   decide
 
+/-! ## the provisioner collection: what the ACME handlers are served by name after an administrative change -/
+
+theorem Idx.look_del_self (m : Idx) (k : Nat) : (m.del k).look k = none := by
+  induction m with
+  | nil => rfl
+  | cons e rest ih =>
+    obtain ⟨k', p⟩ := e
+    by_cases h : k' = k
+    · simp only [Idx.del, if_pos h]; exact ih
+    · simp only [Idx.del, if_neg h, Idx.look]; exact ih
+
+theorem Idx.look_del_other (m : Idx) (k q : Nat) (h : k ≠ q) : (m.del k).look q = m.look q := by
+  induction m with
+  | nil => rfl
+  | cons e rest ih =>
+    obtain ⟨k', p⟩ := e
+    by_cases h1 : k' = k
+    · subst h1
+      simp only [Idx.del, if_true, Idx.look, if_neg h]; exact ih
+    · simp only [Idx.del, if_neg h1, Idx.look]
+      by_cases h2 : k' = q
+      · simp [h2]
+      · simp only [if_neg h2]; exact ih
+
+/-- **store_visible.** A provisioner that `Store` accepts is what every index answers under its keys. -/
+theorem store_visible {c c' : Coll} {p : CProv} (h : c.store p = some c') :
+    c'.byName.look p.name = some p ∧ c'.byID.look p.id = some p ∧ c'.byTok.look p.tok = some p := by
+  unfold Coll.store at h
+  split at h; · simp at h
+  split at h; · simp at h
+  split at h; · simp at h
+  simp at h; subst h
+  simp [Idx.look]
+
+/-- **update_visible.** After `Update(nu)` succeeds, the lookup by NAME — the one the ACME linker uses — answers `nu`,
+    and so do the lookups by id and by token id: no index keeps the object from before the update. -/
+theorem update_visible {c c' : Coll} {nu : CProv} (h : c.update nu = some c') :
+    c'.byName.look nu.name = some nu ∧ c'.byID.look nu.id = some nu ∧ c'.byTok.look nu.tok = some nu := by
+  unfold Coll.update at h
+  split at h; · simp at h
+  rename_i old ho
+  split at h; · simp at h
+  split at h; · simp at h
+  cases hr : c.remove old.id with
+  | none => rw [hr] at h; simp at h
+  | some c1 => rw [hr] at h; exact store_visible (by simpa using h)
+
+/-- **update_served_requirement.** What a new-account request under the provisioner's (new) name is decided on after
+    an update is the updated `requireEAB`. -/
+theorem update_served_requirement {c c' : Coll} {nu : CProv} (h : c.update nu = some c') :
+    c'.servedEAB nu.name = some nu.eab := by
+  simp [Coll.servedEAB, (update_visible h).1]
+
+theorem store_served_requirement {c c' : Coll} {p : CProv} (h : c.store p = some c') :
+    c'.servedEAB p.name = some p.eab := by
+  simp [Coll.servedEAB, (store_visible h).1]
+
+/-- **remove_gone.** A removed provisioner is no longer served under its name (nor found by id). -/
+theorem remove_gone {c c' : Coll} {id : Nat} {p : CProv} (hp : c.byID.look id = some p) (h : c.remove id = some c') :
+    c'.servedEAB p.name = none ∧ c'.byID.look id = none := by
+  unfold Coll.remove at h
+  rw [hp] at h
+  simp at h; subst h
+  simp [Coll.servedEAB, Idx.look_del_self]
+
+/-- **rename_old_name_gone.** After a renaming update the OLD name serves nothing (so not the old configuration). -/
+theorem rename_old_name_gone {c c' : Coll} {nu old : CProv} (ho : c.byID.look nu.id = some old)
+    (hid : old.id = nu.id) (hn : old.name ≠ nu.name) (h : c.update nu = some c') : c'.servedEAB old.name = none := by
+  unfold Coll.update at h
+  rw [ho] at h
+  simp only at h
+  split at h; · simp at h
+  split at h; · simp at h
+  cases hr : c.remove old.id with
+  | none => simp [hr] at h
+  | some c1 =>
+    simp [hr] at h
+    unfold Coll.remove at hr
+    rw [hid, ho] at hr
+    simp at hr; subst hr
+    unfold Coll.store at h
+    split at h; · simp at h
+    split at h; · simp at h
+    split at h; · simp at h
+    simp at h; subst h
+    simp [Coll.servedEAB, Idx.look, Ne.symm hn, Idx.look_del_self]
+
+-- the hypotheses are satisfiable: a provisioner stored without the requirement, then updated to require it
+example : ((Coll.empty.store ⟨1, 10, 20, false⟩).bind (·.update ⟨1, 10, 20, true⟩)).map (·.servedEAB 10) = some (some true) := by
+  decide
+-- … renamed: the new name requires, the old name serves nothing
+example : ((Coll.empty.store ⟨1, 10, 20, false⟩).bind (·.update ⟨1, 11, 21, true⟩)).map (fun c => (c.servedEAB 11, c.servedEAB 10))
+    = some (some true, none) := by decide
+
 end Verif.EAB
